@@ -101,6 +101,58 @@ Theorem graph_isob_sound (opb : vop -> vop -> bool) g h :
   graph_isob opb g h = true -> exists pi, DocIso (fun a b => opb a b = true) pi g h.
 Proof. intros H. exists (iso_map g h). now apply iso_check_sound. Qed.
 
+(* ------------------------------------------------------------------ the operation comparison is equality *)
+Lemma list_eqb_true {A} (eqb : A -> A -> bool) : (forall a b, eqb a b = true -> a = b) ->
+  forall l l', list_eqb eqb l l' = true -> l = l'.
+Proof.
+  intros He l. induction l as [|x r IH]; intros [|y s] H; cbn in H; try discriminate; [reflexivity|].
+  apply andb_prop in H as [Hx Hr]. f_equal; [now apply He | now apply IH].
+Qed.
+Lemma row_eqb_true : forall a b, row_eqb a b = true -> a = b.
+Proof. apply list_eqb_true. intros a b H. now apply N.eqb_eq. Qed.
+Lemma rows_eqb_true : forall a b, rows_eqb a b = true -> a = b.
+Proof. apply list_eqb_true. exact row_eqb_true. Qed.
+
+Lemma value_eqb_true : forall a b, value_eqb_with N.eqb a b = true -> a = b.
+Proof.
+  fix IH 1. intros a b. destruct a as [t g vs|t vs|t|t k]; destruct b as [t' g' vs'|t' vs'|t'|t' k']; cbn; try discriminate; intros H.
+  - apply andb_prop in H as [H H3]. apply andb_prop in H as [H1 H2]. apply N.eqb_eq in H1. apply N.eqb_eq in H2. subst.
+    f_equal. revert vs' H3. induction vs as [|x r IHr]; intros [|y s] H3; try discriminate; [reflexivity|].
+    apply andb_prop in H3 as [Hx Hr]. f_equal; [apply IH; exact Hx | apply IHr; exact Hr].
+  - apply andb_prop in H as [H1 H3]. apply N.eqb_eq in H1. subst.
+    f_equal. revert vs' H3. induction vs as [|x r IHr]; intros [|y s] H3; try discriminate; [reflexivity|].
+    apply andb_prop in H3 as [Hx Hr]. f_equal; [apply IH; exact Hx | apply IHr; exact Hr].
+  - apply N.eqb_eq in H. now subst.
+  - apply andb_prop in H as [H1 H2]. apply N.eqb_eq in H1. apply N.eqb_eq in H2. now subst.
+Qed.
+
+Ltac crush H :=
+  repeat (let H1 := fresh in apply andb_prop in H as [H H1]; try apply N.eqb_eq in H1; try apply row_eqb_true in H1; try apply rows_eqb_true in H1);
+  try apply N.eqb_eq in H; try apply row_eqb_true in H; try apply rows_eqb_true in H; subst; try reflexivity.
+
+Lemma vop_eqb_true : forall a b, vop_eqb_with N.eqb a b = true -> a = b.
+Proof.
+  intros a b H. destruct a; destruct b; cbn in H; try discriminate; try reflexivity; try (crush H; fail).
+  apply value_eqb_true in H. now subst.
+Qed.
+
+Lemma DocIso_mono (R R' : vop -> vop -> Prop) pi g h :
+  (forall a b, R a b -> R' a b) -> DocIso R pi g h -> DocIso R' pi g h.
+Proof.
+  intros HR [H1 H2 H3 H4 H5 H6 H7 H8]. constructor; try assumption.
+  intros i a Ha. destruct (H6 i a Ha) as (j & b & Hj & Hb & Hop & Hp). exists j, b. repeat split; try assumption.
+  now apply HR.
+Qed.
+
+(* documents without function constants' side lists (first and second model): the operations of a node and of its image
+   are EQUAL *)
+Theorem graph_isob_eq_sound g h :
+  graph_isob (vop_eqb_with N.eqb) g h = true -> exists pi, DocIso eq pi g h.
+Proof.
+  intros H. destruct (graph_isob_sound _ _ _ H) as [pi Hpi]. exists pi.
+  eapply DocIso_mono; [|exact Hpi]. intros a b. apply vop_eqb_true.
+Qed.
+
 (* non-vacuity and the point of it: the same three-level document numbered in index order of creation (the nested
    region's Input / Output after a later sibling of the region) and in pre-order: accepted, with the renumbering
    3 <-> 5, 4 <-> 6 ... ; with two siblings exchanged: refused *)
